@@ -31,6 +31,7 @@ fn run_check(id: &str, tier: Tier) -> Option<Report> {
         "C12" => checks::c12::run(tier),
         "C13" => checks::c13::run(tier),
         "C14" => checks::c14::run(tier),
+        "C15" => checks::c15::run(tier),
         "C17" => checks::c17::run(tier),
         _ => return None,
     })
@@ -50,6 +51,7 @@ fn replay_case(id: &str, case: &Value) -> Option<Vec<Failure>> {
         "C12" => checks::c12::replay(case),
         "C13" => checks::c13::replay(case),
         "C14" => checks::c14::replay(case),
+        "C15" => checks::c15::replay(case),
         "C17" => checks::c17::replay(case),
         _ => return None,
     })
